@@ -70,6 +70,18 @@ CHECKS = {
         "every array of the deep copy leaving the source unchanged.",
         "Frame formats cannot represent an absent label array (skipped there); CSV floats exact for dyadic values, 1e-12 relative otherwise (pandas parser).",
         "DESIGN.md §3 C16"),
+    "C05": (
+        "Hypothesis-generated populations/decisions for all 61 concrete selection-problem classes (enumerated at run time) vs exact-rational criterion definitions; metamorphic encoding/permutation/rescaling relations; recording closures for weights and transformations",
+        "Classes are discovered from the package at run time (a new class is a violation until covered; RealLookAhead and the unimplemented "
+        "mating problem are excluded with a printed reason). Per criterion (EBV, GEBV, Random, WGS, GWGEBV, Family, OCS, MGR, MEH, L1, L2, OHV, OPV, "
+        "GenotypeBuilder, PAFD, PAU, MOGS, UC, EMBV): latentfn equals an independent Fraction/loop definition on the constructor data; subset, "
+        "integer, binary and real encodings of the same contributions agree; invariance under relisting and positive rescaling; evalfn = declared "
+        "weights x declared transformations (harness closures record their arguments); evaluate() row-wise equals evalfn; nlatent = len(latent). "
+        "Factory sub-checks build problems from populations stored in two taxon orders with non-sorted names and compare both the data attributes "
+        "and end-to-end latent values with oracle values computed from the population.",
+        "Subsets are lists of distinct members (repeats via the integer encoding); UC factories only for inbred parents/nself=0 (variance itself is C12); "
+        "haplotype factories only for unambiguous block layouts (C18); OCS/MGR/MEH factories have an independent kinship oracle for the molecular estimator only.",
+        "DESIGN.md §3 C05"),
     "C08": (
         "Hypothesis-generated programs of stochastic API calls; differential re-execution after re-seeding behind different histories, explicit-rng isolation with byte-wise global-stream comparison, fresh-subprocess comparison",
         "Generated programs (1..8 calls) over mating protocols, phenotyping, sampling utilities, configuration sampling, prng.spawn and "
